@@ -189,7 +189,7 @@ pub fn compare_region(
         }
         let pos = pool.iter().position(|d| {
             let (s, e) = span_of(d);
-            if sev_of(d) != rec.sev || !rec.anchor.admits(s, e) {
+            if sev_of(d) != rec.sev || !rec.admits(s, e) {
                 return false;
             }
             match &rec.related {
@@ -213,7 +213,7 @@ pub fn compare_region(
                 // is there a diagnostic at the right place with the wrong related info?
                 let near = pool.iter().find(|d| {
                     let (s, e) = span_of(d);
-                    sev_of(d) == rec.sev && rec.anchor.admits(s, e)
+                    sev_of(d) == rec.sev && rec.admits(s, e)
                 });
                 match near {
                     Some(d) => errs.push(format!(
